@@ -97,6 +97,7 @@ def accepts : Nat → Schemas → Ty → Json → Bool
     | .scalar kind v _ _ =>
       if !isNilVal v then valJsonEq v j
       else if kind = "any" then wfJson j
+      else if kind = "null" then j.isNull
       else denScalar kind j
     | .ref pkg name _ =>
       match Schemas.locateObject ss pkg name with
